@@ -34,6 +34,9 @@ var pureFuncs = map[string]bool{
 	"time.Duration": true, "encoding/hex.EncodeToString": true,
 }
 
+// allocOnlyFuncs: dependency functions whose only effect is to allocate their result.
+var allocOnlyFuncs = map[string]bool{"errors.New": true, "fmt.Errorf": true}
+
 // isPureModuleFunc: a module function with no side effects (no stores to memory it did not allocate, no
 // calls except to pure functions, no map updates). firstSet is the typical instance.
 func (a *Analysis) isPureModuleFunc(fn *ssa.Function) bool {
@@ -65,7 +68,7 @@ func (a *Analysis) isPureModuleFunc(fn *ssa.Function) bool {
 				if sc == nil {
 					return false
 				}
-				if pureFuncs[sc.String()] {
+				if pureFuncs[sc.String()] || allocOnlyFuncs[sc.String()] {
 					continue
 				}
 				if !a.P.InModule(sc) && sc.Signature.Recv() != nil && pureMethodNames[sc.Name()] && !returnsError(sc.Signature) {
@@ -357,6 +360,9 @@ func (fc *FuncCtx) ap0(v ssa.Value) string {
 			if ap := fc.inlinedResultAP(c, x.Index); ap != "" {
 				return ap
 			}
+			if ap := fc.pureResultAP(c, x.Index); ap != "" {
+				return ap
+			}
 		}
 		return fc.AP(x.Tuple) + fmt.Sprintf("#%d", x.Index)
 	case *ssa.Range:
@@ -520,7 +526,7 @@ func (fc *FuncCtx) accessorAP(x *ssa.Call, sc *ssa.Function) string {
 	}
 	sub := fc.inlineCtx(sc, x.Call.Args, x)
 	ap := sub.AP(ret.Results[0])
-	if strings.Contains(ap, "#") {
+	if sub.prefix == "" || strings.Contains(ap, sub.prefix) {
 		return "" // depends on callee-local values
 	}
 	return ap
@@ -759,6 +765,39 @@ func (fc *FuncCtx) inlinedResultAP(c *ssa.Call, idx int) string {
 			return ""
 		}
 		s := sub.AP(v)
+		if ap != "" && s != ap {
+			return ""
+		}
+		ap = s
+	}
+	return ap
+}
+
+// pureResultAP: result idx of a side-effect-free module helper with several results, when every success return
+// (nil error, if it has an error result) yields the same expression over the helper's parameters: the call's result is
+// named by that expression over the arguments (splitIV(ct, n) -> ct[:n], ct[n:]).
+func (fc *FuncCtx) pureResultAP(c *ssa.Call, idx int) string {
+	sc := c.Call.StaticCallee()
+	if sc == nil || fc.depth >= fc.A.MaxDepth || len(sc.Blocks) == 0 || !fc.A.isPureModuleFunc(sc) {
+		return ""
+	}
+	ei := errIndex(sc)
+	if idx == ei {
+		return ""
+	}
+	sub := fc.inlineCtx(sc, c.Call.Args, c)
+	ap := ""
+	for _, ret := range sub.Returns() {
+		if idx >= len(ret.Results) {
+			return ""
+		}
+		if ei >= 0 && !isNilConst(Resolve(ret.Results[ei])) {
+			continue // failure return: the other results are not used by a caller that checks the error
+		}
+		s := sub.AP(ret.Results[idx])
+		if sub.prefix == "" || strings.Contains(s, sub.prefix) {
+			return "" // depends on values local to the helper
+		}
 		if ap != "" && s != ap {
 			return ""
 		}
